@@ -19,7 +19,10 @@ RULE = (
     "least one fragment appeared (arrival or passive) or a FOK/BPE decision was exercised; distinct = distinct case JSON. "
     "Sub-check resting: runs with 1-6 resting orders and multi-price traded updates (generator of C06); a resting order "
     "gains only at its limit price and never more than half the volume that traded at or through its limit since it "
-    "arrived; non-trivial: a passive fill out of an update that also traded at a price worse than the limit."
+    "arrived; non-trivial: a passive fill out of an update that also traded at a price worse than the limit. "
+    "Sub-check replace: an order rests behind the book and is replaced to a price through / at / behind the best price; "
+    "the replacement is judged like a fresh placement (limit, snapshot levels, BPE-off lapse); non-trivial: the "
+    "replacement filled on arrival or a BPE-off lapse was due."
 )
 ASSUMPTIONS = [
     "SP conversion fills (MARKET_ON_CLOSE persistence / in-play BSP) are excluded by construction: they take the starting price by exchange rule (covered by C04/C08)",
@@ -322,6 +325,141 @@ def check_resting(sc):
     return nt, classes
 
 
+@st.composite
+def replace_case(draw, tier="quick"):
+    """an order rests behind the book and is then replaced to a price through / at / behind the best price of the book
+    prevailing when the replace executes: the replacement is a new bet and is taken like a fresh placement"""
+    spec = world.default_market(0, 2, bsp_market=False)
+    prices = world.ladder_prices(spec)
+    nt = len(prices)
+    mid = draw(st.integers(40, 300))
+    side = draw(st.sampled_from(["BACK", "LAY"]))
+    sgn = -1 if side == "BACK" else 1
+    atb, atl = draw(gen.book_side_pair(nt, mid, max_levels=5, allow_empty=False))
+    ref_side = atb if side == "BACK" else atl
+    ref = ref_side[0][0]
+    rest_tick = max(0, min(nt - 1, ref - sgn * draw(st.integers(3, 12))))
+    size = gen.size_c(draw, 100, 20000) / 100
+    place = {"op": "place", "r": 0, "side": side, "type": "LIMIT", "tick": rest_tick, "size": size,
+             "pers": draw(st.sampled_from(["LAPSE", "PERSIST"]))}
+    steps = [{"dt": 1000, "k": "book", "rc": [{"r": 0, "atb": atb, "atl": atl}]},
+             {"dt": 1000, "k": "book", "rc": []}]
+    if draw(st.integers(0, 2)) == 0:
+        # the book moves (never through the resting order) before the replace is requested
+        atb, atl = draw(gen.book_side_pair(nt, max(30, min(nt - 30, mid + draw(st.integers(-2, 2)))), max_levels=5, allow_empty=False))
+        steps[1]["rc"] = [{"r": 0, "atb": atb, "atl": atl}]
+        ref_side = atb if side == "BACK" else atl
+        ref = ref_side[0][0]
+    rel = draw(st.sampled_from(["through", "through", "through", "at", "behind"]))
+    if rel == "through":
+        k = draw(st.integers(1, 4))
+        new_tick = ref_side[k][0] if k < len(ref_side) else ref_side[-1][0] + sgn * draw(st.integers(1, 3))
+    elif rel == "at":
+        new_tick = ref
+    else:
+        new_tick = ref - sgn * draw(st.integers(1, 2))
+    new_tick = max(0, min(nt - 1, new_tick))
+    if new_tick == rest_tick:
+        new_tick = max(0, min(nt - 1, new_tick + sgn))
+    # the update that executes the replace carries a different book (look-ahead would show)
+    a2, b2 = draw(gen.book_side_pair(nt, max(30, min(nt - 30, mid + draw(st.integers(-6, 6)))), max_levels=4))
+    steps.append({"dt": 1000, "k": "book", "rc": [{"r": 0, "atb": a2, "atl": b2}]})
+    for _ in range(draw(st.integers(1, 3))):
+        trd = [[max(0, min(nt - 1, new_tick + draw(st.integers(-3, 3)))), gen.size_c(draw, 2, 20000) / 100]]
+        steps.append({"dt": draw(st.sampled_from([50, 200, 1000])), "k": "book", "rc": [{"r": 0, "trd": trd}]})
+    spec["steps"] = steps
+    script = [{"m": 0, "at": 1, "ops": [place]}, {"m": 0, "at": 2, "ops": [{"op": "replace", "o": 0, "tick": new_tick}]}]
+    return {"markets": [spec], "strategies": [gen.strategy_spec("A", script=script)],
+            "clients": [{"bpe": draw(st.integers(0, 2)) == 0, "full_match": False, "min_bet_validation": False}],
+            "config": {}, "_replace": True}
+
+
+def check_replace(sc):
+    lb = simlab.run_scenario(sc)
+    if lb.error is not None:
+        raise crash_violation(lb.error, sc, "run-aborted")
+    spec = sc["markets"][0]
+    prices = world.ladder_prices(spec)
+    script = sc["strategies"][0]["script"]
+    if len(script) < 2 or not script[0]["ops"] or not script[1]["ops"]:
+        return False, {"minimised-away"}
+    op, rop = script[0]["ops"][0], script[1]["ops"][0]
+    if op.get("op") != "place" or rop.get("op") != "replace":
+        return False, {"minimised-away"}
+    side, size = op["side"], op["size"]
+    limit = prices[rop["tick"]]
+    bpe = sc["clients"][0]["bpe"]
+    ups = lb.renderers[0].updates
+    if len(ups) < 4:
+        return False, {"minimised-away"}
+    snap = ups[2].books[0]  # the book prevailing before the update that executes the replace
+    book = snap["atb"] if side == "BACK" else snap["atl"]
+    level = {p: s for p, s in book}
+    best = book[0][0] if book else None
+    classes = {"replace", "side:" + side, "bpe-on" if bpe else "bpe-off"}
+    first_oid = None
+    acked = False
+    nt = False
+    for rec in lb.log:
+        for o in rec.get("orders", ()):
+            if first_oid is None:
+                first_oid = o["oid"]
+            if o["oid"] == first_oid:
+                continue
+            where = "%s@%s" % (rec["cb"], rec["idx"])
+            if o["status"] == "PENDING":
+                if o["matched"]:
+                    raise Violation("pending-has-fills", ("replacement",), "fragments %s while PENDING at %s" % (o["matched"], where), sc)
+                continue
+            frs = o["matched"]
+            if not acked:
+                acked = True
+                arrival_n = len(frs)
+                classes.add("replacement-acknowledged")
+                through = best is not None and ((side == "BACK" and best > limit) or (side == "LAY" and best < limit))
+                classes.add("rel:through" if through else "rel:at-or-behind")
+                for pt, p, s_ in frs:
+                    if (side == "BACK" and p < limit) or (side == "LAY" and p > limit):
+                        raise Violation("fill-worse-than-limit", (side, "replacement"), "fragment at %s for %s limit %s (book %s)" % (p, side, limit, book), sc)
+                taken = {}
+                for pt, p, s_ in frs:
+                    taken[p] = round(taken.get(p, 0) + s_, 2)
+                for p, s_ in taken.items():
+                    if p not in level:
+                        raise Violation("fill-at-price-not-in-book", (side, "replacement"), "fragment price %s not a level of the snapshot book %s" % (p, book), sc)
+                    if s_ > level[p] + 1e-9:
+                        raise Violation("took-more-than-available", (side, "replacement"), "took %s at %s, level had %s" % (s_, p, level[p]), sc)
+                if frs:
+                    nt = True
+                    classes.add("replacement-arrival-fill")
+                if (not bpe) and through:
+                    nt = True
+                    classes.add("bpe-lapse-expected")
+                    if o["sm"] != 0 or o["sr"] != 0 or abs(o["sl"] - o["size"]) > 1e-9:
+                        raise Violation("bpe-off-filled-through-price", (side, "replacement"),
+                                        "BPE off, best %s better than the replacement's limit %s: matched %s remaining %s lapsed %s of %s" % (
+                                            best, limit, o["sm"], o["sr"], o["sl"], o["size"]), sc)
+            else:
+                for pt, p, s_ in frs[arrival_n:]:
+                    if p != limit:
+                        raise Violation("passive-fill-not-at-limit", (side, "replacement"), "passive fragment at %s, limit %s" % (p, limit), sc)
+                if "bpe-lapse-expected" in classes and frs:
+                    raise Violation("bpe-off-filled-through-price", (side, "replacement-later"), "lapsed replacement gained fragments %s" % (frs,), sc)
+    if not acked:
+        # a replacement whose placement is refused at the (simulated) exchange is never registered
+        through = best is not None and ((side == "BACK" and best > limit) or (side == "LAY" and best < limit))
+        if (not bpe) and through:
+            nt = True
+            classes.add("bpe-lapse:replacement-refused-and-never-registered")
+        else:
+            classes.add("replacement-not-registered-for-another-reason")
+    return nt, classes
+
+
+def sub_replace(col, budget, seed, tier, shard, nshards):
+    run_given(col, replace_case(tier), check_replace, budget, seed, tier, "replace")
+
+
 def sub_place(col, budget, seed, tier, shard, nshards):
     run_given(col, case(tier), check, budget, seed, tier, "place")
 
@@ -334,11 +472,14 @@ def sub_resting(col, budget, seed, tier, shard, nshards):
 
 def subchecks(tier):
     return [SubCheck("place", sub_place, 6000 if tier == "quick" else 300000),
-            SubCheck("resting", sub_resting, 1500 if tier == "quick" else 40000)]
+            SubCheck("resting", sub_resting, 1500 if tier == "quick" else 40000),
+            SubCheck("replace", sub_replace, 1200 if tier == "quick" else 40000)]
 
 
 def replay(c, sub=None):
-    if sub == "resting" or "strategies" in c:
+    if sub == "replace" or c.get("_replace"):
+        check_replace(c)
+    elif sub == "resting" or "strategies" in c:
         check_resting(c)
     else:
         check(c)
